@@ -23,6 +23,11 @@ def generate(seed, tier):
     g = Gen(seed)
     scn = S.session(g.int(0, 1 << 60), KINDS, nmax=6, big=big)
     ops = scn['actors'][0]
+    if g.chance(0.1):
+        # output that begins with a byte-order mark (U+FEFF, EF BB BF): it is part of what the device wrote
+        for c in scn['device']['cmds'].values():
+            if c['content'].get('size', 0) >= 3 and g.chance(0.7):
+                c['content']['prefix_hex'] = 'efbbbf'
     case = {'seed': seed, 'scn': scn}
     if g.chance(0.06):
         # a streaming_shell generator is read part-way, the connection is closed and opened again, another command runs, and then
